@@ -199,8 +199,7 @@ Lemma stat_name_row_eq : forall single cell a nm,
 Proof.
   intros single cell a nm H. unfold stat_name_row, row_name in *.
   destruct cell as [pv|]; [|inversion H; auto].
-  destruct single; [|inversion H; auto].
-  destruct pv; try discriminate. inversion H; auto.
+  destruct single; inversion H; auto.
 Qed.
 
 Lemma cell_stats_names {X} (single : bool) (cell : option val) (val_of : nat * agg -> X) :
@@ -314,13 +313,9 @@ Qed.
 
 Lemma wf_range : forall a b s p, range_frame a b s = Ok p -> wf_pre p.
 Proof.
-  intros a b s p H. unfold range_frame in H. destruct (s =? 0); [discriminate|].
-  destruct (map _ (py_range a b s)) as [|r rs] eqn:E; [discriminate|]. inversion H; subst.
-  apply struct_of_wf. rewrite map_map. simpl. rewrite map_id.
-  assert (Hall : Forall (row_ok [id_name]) (r :: rs)).
-  { rewrite <- E. rewrite Forall_forall. intros x Hx. apply in_map_iff in Hx. destruct Hx as [i [<- _]].
-    split; reflexivity. }
-  inversion Hall; subst. destruct H2 as [-> _]. auto.
+  intros a b s p H. unfold range_frame in H. destruct (s =? 0); [discriminate|]. inversion H; subst.
+  apply struct_of_wf. simpl. rewrite Forall_forall. intros x Hx. apply in_map_iff in Hx.
+  destruct Hx as [i [<- _]]. split; reflexivity.
 Qed.
 
 (* rows that carry their own field names (Row / namedtuple), renamed by the schema argument *)
@@ -426,6 +421,7 @@ Proof.
   - inv_bind H as f Hf. inv_bind H as u Hu. eapply wf_sample; eauto using get_wf.
   - inv_bind H as f Hf. eapply wf_repartition; eauto using get_wf.
   - eapply wf_create_rows; [|exact H]. intros -> ->. exact Hrect.
+  - unfold create_strict in H. destruct (_ && _); [discriminate|]. eapply wf_create; eauto. discriminate.
 Qed.
 
 Lemma wf_run : forall prog env c, Forall wf env -> Forall instr_rect prog ->
@@ -546,5 +542,11 @@ Lemma frame_create_rows : forall is_row by_struct own names data p c,
   (by_struct = true -> is_row = true -> nodup_names own = true) ->
   create_rows is_row by_struct own names data = Ok p -> wf (fst (finish c p)).
 Proof. intros. apply finish_wf. eapply wf_create_rows; eauto. Qed.
+Lemma frame_create_strict : forall names strict data p c,
+  create_strict names strict data = Ok p -> wf (fst (finish c p)).
+Proof.
+  intros names strict data p c H. apply finish_wf. unfold create_strict in H.
+  destruct (_ && _); [discriminate|]. eapply wf_create; eauto. discriminate.
+Qed.
 Lemma frame_range : forall a b s p c, range_frame a b s = Ok p -> wf (fst (finish c p)).
 Proof. intros. apply finish_wf. eapply wf_range; eauto. Qed.
